@@ -180,3 +180,29 @@ _ADD = {
 for _k, (_t, _x) in _ADD.items():
     CHECKS[_k]["technique"] += _t
     CHECKS[_k]["text"] += _x
+
+# ---- additions after seeded rounds 4-6
+_ADD2 = {
+ "C01": " + injections through the real server loop (half-open and established connections)",
+ "C02": " + the session under test is the second session of the same UdpClient object (earlier signatures known to the attacker and seen by the pinned key object)",
+ "C03": " + Trace_Server clause A_clisealed (every client emission but the single hello opens under the client's key) with an application that sends before the handshake finished",
+ "C04": " + Trace_Server clause L_once on recorded server-loop executions with raising handlers (a message reaches the handler at most once)",
+ "C05": " + link outages longer than two ack time-outs, bursts wider than the message window (clause V_nolost), clause V_ctxage",
+ "C06": " + transfers of hundreds of fragments over normal and sub-frame round trips (clause V_ctxage: no reassembly context given up before the code's own allowance)",
+ "C07": " + ack-lateness sweep (return path dark for exactly L ticks, L across the ack window) + bursts wider than the message window",
+ "C08": " + ack-lateness sweep + message-lateness sweep (nine messages per datagram: message window exercised apart from the datagram window)",
+ "C10": " + match-over scenario (clients closed from inside a disconnect event, shutdown k ticks later) + first request sent from the connect callback with a raising connect event (A_echo) + clause L_once",
+ "C11": " + block list set after the server object was built and replaced mid-run + short but otherwise well-formed hellos",
+ "C12": " + settings re-applied every frame + context configured after the server object was built",
+ "C13": " + dumpb as a history of calls with refusals in between + a fixture class hierarchy used base-first",
+ "C14": " + record-aligned chains of client hellos + self-signed server hellos with mistyped signed fields decoded the way a client does + every fourth input decoded twice (stability)",
+ "C15": " + fixture class re-declares the fields of a base class that is converted first + a string-valued enum whose member names are each other's values",
+ "C16": " + dispatched requests with percent-encoded slashes",
+ "C18": " + frames built by the library's constructors (multi-byte text across the length boundaries), processed in shuffled batches of frames that are alive together",
+ "C19": " + every question asked twice in one process + 10 KiB near-identical password pairs",
+ "C20": " + bystander dispatchers (two registered ones asked first, an empty one asked afterwards) at every replayed transition",
+}
+for _k, _t in _ADD2.items():
+    CHECKS[_k]["technique"] += _t
+NOTES += (" Judges (Trace_Conn, Trace_Server) take a constant Skip: a trace rejected only at clauses of other properties is judged again without them, so "
+          "that the rest of it is examined for the property being decided.")
